@@ -594,12 +594,7 @@ func explainSubquery(sb *strings.Builder, n *ast.Subquery, indent string, depth 
 	} else {
 		fmt.Fprintf(sb, "%sSubquery (children %d)\n", indent, children)
 	}
-	// Set context flag before recursing into subquery content
-	// This affects how negated literals with aliases are formatted
-	prevContext := inSubqueryContext
-	inSubqueryContext = true
 	Node(sb, n.Query, depth+1)
-	inSubqueryContext = prevContext
 }
 
 func explainAliasedExpr(sb *strings.Builder, n *ast.AliasedExpr, depth int) {
